@@ -34,7 +34,7 @@ patch("c02-missing-required-assertion-sig-accepted", ["C02"], "saml2_tophat/resp
 patch("c02-either-or-never-enforced", ["C02"], "saml2_tophat/entity.py",
       "            if not response_is_signed and not assertions_are_signed:",
       "            if not response_is_signed and not assertions_are_signed and False:")
-patch("c02-unrequired-invalid-assertion-sig-ignored", ["C02", "C17"], "saml2_tophat/response.py",
+patch("c02-unrequired-invalid-assertion-sig-ignored", ["C02"], "saml2_tophat/response.py",
       "            if not verified and self.do_not_verify is False:\n                try:",
       "            if not verified and self.do_not_verify is False and self.require_signature:\n                try:")
 # ---------------------------------------------------------------- C03
@@ -142,7 +142,7 @@ patch("c17-decrypted-signature-not-verified", ["C17"], "saml2_tophat/response.py
       "                    if assertion.signature and not verified:", "                    if assertion.signature and not verified and False:")
 patch("c17-encryption-failure-returns-plaintext", ["C17", "C20"], "saml2_tophat/entity.py",
       "        if exception:\n            raise exception\n        return response", "        return response")
-patch("c17-second-pass-verified-again", ["C17", "C20"], "saml2_tophat/response.py",
+patch("c17-second-pass-verified-again", ["C20"], "saml2_tophat/response.py",
       "                    resp.encrypted_assertion, decr_text, verified=_verified)",
       "                    resp.encrypted_assertion, decr_text, verified=True)")
 # ---------------------------------------------------------------- C18
@@ -184,10 +184,17 @@ patch("c20-tool-error-counts-as-verified", ["C20"], "saml2_tophat/sigver.py",
 patch("c20-sign-failure-returns-input", ["C20"], "saml2_tophat/sigver.py",
       "            logger.error('Signing operation failed :\\nstdout : %s\\nstderr : %s', stdout, stderr)\n            raise SigverError(stderr)",
       "            logger.error('Signing operation failed :\\nstdout : %s\\nstderr : %s', stdout, stderr)\n            return statement")
-patch("c20-output-not-validated", ["C20"], "saml2_tophat/sigver.py",
-      "                if validate_output:\n                    parse_xmlsec_output(p_err)", "                if validate_output and pof.returncode != 0:\n                    parse_xmlsec_output(p_err)")
-patch("c20-stdout-also-searched", ["C20"], "saml2_tophat/sigver.py",
-      "        return parse_xmlsec_output(stderr)", "        return parse_xmlsec_output(stderr + '\\n' + _stdout)")
+# (two earlier entries - "output not validated when exit code is 0" and "stdout also searched in validate_signature" -
+# turned out to be equivalent mutants: the verdict is parsed twice, in _run_xmlsec and in validate_signature)
+patch("c20-stdout-also-searched-everywhere", ["C20"], "saml2_tophat/sigver.py",
+      [("        return parse_xmlsec_output(stderr)", "        return parse_xmlsec_output(stderr + '\\n' + _stdout)"),
+       ("                    parse_xmlsec_output(p_err)", "                    parse_xmlsec_output(p_err + '\\n' + p_out)")], None)
+patch("c20-positive-exit-code-is-success", ["C20"], "saml2_tophat/sigver.py",
+      [("        return parse_xmlsec_output(stderr)", "        return True"),
+       ("                    parse_xmlsec_output(p_err)", "                    assert pof.returncode is not None")], None)
+patch("c20-decrypt-failure-returns-previous-text", ["C20", "C17"], "saml2_tophat/sigver.py",
+      "        return enctext\n\n    def decrypt(self, enctext, key_file=None, id_attr=''):",
+      "        return _enctext if _enctext is not None else enctext\n\n    def decrypt(self, enctext, key_file=None, id_attr=''):")
 
 
 def run(selected):
@@ -201,11 +208,15 @@ def run(selected):
             shutil.copytree(SRC, dst, ignore=shutil.ignore_patterns("__pycache__", "*.pyc", "*.egg-info"))
             f = os.path.join(dst, p["file"])
             s = open(f).read()
-            if s.count(p["old"]) != 1:
-                results.append({"id": p["id"], "error": "patch does not apply (%d matches)" % s.count(p["old"])})
+            pairs = p["old"] if isinstance(p["old"], list) else [(p["old"], p["new"])]
+            bad = [o for o, _ in pairs if s.count(o) != 1]
+            if bad:
+                results.append({"id": p["id"], "error": "patch does not apply (%r)" % bad[0][:60]})
                 print("%-55s PATCH-DOES-NOT-APPLY" % p["id"])
                 continue
-            open(f, "w").write(s.replace(p["old"], p["new"]))
+            for o, n in pairs:
+                s = s.replace(o, n)
+            open(f, "w").write(s)
             row = {"id": p["id"], "note": p["note"], "caught_by": [], "missed_by": [], "rules": {}}
             for prop in p["props"]:
                 t0 = time.time()
